@@ -122,7 +122,8 @@ pub struct Hub {
     pub next_gate: usize,
     pub http_waiting: Option<usize>,           // gate id of an HTTP exchange in flight
     pub timers: Vec<usize>,                    // gate id per timer arm index of the unit
-    pub wakers: Vec<Waker>,
+    /// per gate: the waker of its most recent poll (what a real timer / socket keeps); a release wakes that one only
+    pub wakers: Vec<(usize, Waker)>,
     // phase tracking
     pub in_check: bool,
     /// the harness itself (as the embedder) holds one of the shared locks right now
@@ -209,7 +210,9 @@ impl Hub {
     pub fn new_gate(&mut self) -> usize { let g = self.next_gate; self.next_gate += 1; g }
     pub fn release(&mut self, g: usize) {
         self.released.insert(g);
-        for w in self.wakers.drain(..) { w.wake(); }
+        let mut mine = vec![];
+        self.wakers.retain(|(id, w)| if *id == g { mine.push(w.clone()); false } else { true });
+        for w in mine { w.wake(); }
     }
     pub fn store_tok(&self) -> String {
         let p: Vec<String> = self.pending.iter().map(|(k, v)| format!("{}:{}", hexb(k), v.as_ref().map(|x| x.tok()).unwrap_or("-".into()))).collect();
@@ -224,7 +227,7 @@ impl Future for Gate {
     type Output = ();
     fn poll(self: Pin<&mut Self>, cx: &mut Context<'_>) -> Poll<()> {
         let mut h = self.hub.lock().unwrap();
-        if h.released.contains(&self.id) { Poll::Ready(()) } else { h.wakers.push(cx.waker().clone()); Poll::Pending }
+        if h.released.contains(&self.id) { Poll::Ready(()) } else { let id = self.id; h.wakers.retain(|(j, _)| *j != id); h.wakers.push((id, cx.waker().clone())); Poll::Pending }
     }
 }
 
